@@ -18,6 +18,9 @@ type Gateway struct {
 	pushes []map[string]uint64
 	state  map[string]uint64
 	errs   int
+	// RefuseFirst: the first n pushes are answered with 503 and leave the gateway's content as it was
+	RefuseFirst int
+	seen        int
 }
 
 func NewGateway(status int) *Gateway {
@@ -55,6 +58,12 @@ func NewGateway(status int) *Gateway {
 			}
 		}
 		g.mu.Lock()
+		g.seen++
+		if g.seen <= g.RefuseFirst {
+			g.mu.Unlock()
+			w.WriteHeader(http.StatusServiceUnavailable)
+			return
+		}
 		if bad {
 			g.errs++
 		}
